@@ -458,15 +458,8 @@ class CyclicCodeEncoder(SystematicLinearBlockCodeEncoder):
         """
         # For a systematic (n,k) code with generator matrix G = [I_k | P],
         # the check matrix is H = [P^T | I_(n-k)]
-        identity_part = torch.eye(self._redundancy, dtype=torch.float32, device=self.generator_matrix.device)
-
-        if self.information_set == "left":
-            # For 'left' information set, G = [I_k | P]
-            parity_part = self.generator_matrix[:, self._dimension :].T
-            # H = [P^T | I_m]
-            self._check_matrix = torch.cat([parity_part, identity_part], dim=1)
-        else:
-            # For 'right' information set, G = [P | I_k]
-            parity_part = self.generator_matrix[:, : self._redundancy].T
-            # H = [I_m | P^T]
-            self._check_matrix = torch.cat([identity_part, parity_part], dim=1)
+        # H has the identity on the parity positions and P^T on the information positions
+        check_matrix = torch.zeros((self._redundancy, self._length), dtype=torch.float32, device=self.generator_matrix.device)
+        check_matrix[:, self.parity_set] = torch.eye(self._redundancy, dtype=torch.float32, device=self.generator_matrix.device)
+        check_matrix[:, self.information_set] = self.parity_submatrix.T.to(torch.float32)
+        self._check_matrix = check_matrix
